@@ -22,13 +22,13 @@ RULE = (
     "closure per engine where the canonical state additionally carries the reference memory; a case is one "
     "history transition taken from a state whose history parent is inactive; compared: resulting configuration "
     "under the parent vs reference (shallow: remembered child + default descent; deep: remembered leaves; never "
-    "exited: default target / normal entry), one entry marker per restored state, and agreement of a "
+    "exited: default target / normal entry), one entry marker per restored state, normal entry of the other regions of every parallel ancestor the transition enters, and agreement of a "
     "snapshot-restored twin; distinct_nontrivial = distinct (machine, engine, state, history event) cases"
 )
 BOUNDS = {
     "quick": "TREE(N<=5) trees with a history node under a non-root parent x {no default, default=last sibling} x {sync, async}",
     "thorough": "TREE(N<=6) trees with a history node under a non-root parent x {no default, default=last sibling} x {sync, async}; "
-                "plus structured skeletons C(X(H,s1,s2),A) with X in {C,P}, H in {Hs,Hd}, s1,s2 from a subtree menu (quick: reduced menu)",
+                "plus structured skeletons C(X(H,s1,s2),A) with X in {C,P}, H in {Hs,Hd}, s1,s2 from a subtree menu (quick: reduced menu) and C(P(owner,sibling),A) with the history owner a region next to a deeper region",
 }
 ASSUMPTIONS = [
     "only transitions taken while the history state's parent is inactive are judged (the property leaves the "
@@ -165,6 +165,20 @@ def run_unit(unit):
             inside = [s for s in ens if s == P.id or s.startswith(P.id + ".")]
             if sorted(inside) != sorted(want):
                 flag("restored-state-entered-once", f"entry markers {inside} vs restored states {sorted(want)}", hist, ev)
+            # what the transition enters OUTSIDE the history parent is not the history's business: a parallel ancestor
+            # entered by this transition enters its other regions normally (their default descent)
+            if F.legal_configuration(byid, after) is None:
+                child, Q = P, P.parent
+                while Q is not None:
+                    if Q.kind == "P" and Q.id in ens:
+                        for R in Q.children:
+                            if R is child or R.is_history:
+                                continue
+                            got_r = {s_ for s_ in after if s_ == R.id or s_.startswith(R.id + ".")}
+                            want_r = {x.id for x in F.default_entry(R)}
+                            if got_r != want_r:
+                                flag("sibling-region-not-normally-entered", f"region {R.id} of {Q.id} (entered by this transition, not under the history parent {P.id}): expected its normal entry {sorted(want_r)} got {sorted(got_r)}", hist, ev)
+                    child, Q = Q, Q.parent
             # snapshot-restored twin
             d1, _ = build(h2, engine, hist)
             try:
